@@ -13,19 +13,19 @@ def family(pid, tier, seed):
     quick = tier == "quick"
     gs = []
     if pid == "C01":
-        n, exh, rnd = (24, 3, 60) if quick else (300, 4, 250)
+        n, exh, rnd = (24, 3, 60) if quick else (120, 3, 200)
         for i in range(n):
             kinds = [[], ["token", "tokens"], ["int8"], ["token", "tokens", "int8"]][i % 4]
             g = GG.make_grammar(rng, "g%d" % i, extra_kinds=kinds, ks=(0, 1, 2, 3, 99999, -1, -3) if i % 3 == 0 else (0, 1, 2, -1))
             seen = set()
-            GG.exhaustive_inputs(g, exh if i % 2 == 0 or not quick else 2, seen, extra_terms=("A",) if g["ci"] else ())
+            GG.exhaustive_inputs(g, (exh if i % 2 == 0 else 2) if quick else (4 if i % 6 == 0 else 3), seen, extra_terms=("A",) if g["ci"] else ())
             GG.random_inputs(g, rng, rnd, 8, seen)
             gs.append(g)
         gs += curated_core(rng)
     elif pid == "C02":
         gs = leak_family(rng, quick)
     elif pid == "C10":
-        n, bases, resp = (20, 40, 6) if quick else (200, 150, 12)
+        n, bases, resp = (20, 40, 6) if quick else (100, 100, 10)
         for i in range(n):
             g = GG.make_grammar(rng, "g%d" % i, extra_kinds=["int8"] if i % 3 == 0 else [], name_elided=False, ks=(0, 1, 2, -1))
             seen = set()
@@ -58,7 +58,7 @@ def family(pid, tier, seed):
                     g["groups"].append(list(range(start, len(g["inputs"]))))
             gs.append(g)
     elif pid == "C11":
-        n, exh, rnd = (20, 2, 80) if quick else (250, 3, 300)
+        n, exh, rnd = (20, 2, 80) if quick else (120, 3, 200)
         for i in range(n):
             g = GG.make_grammar(rng, "g%d" % i, extra_kinds=["token", "tokens"] if i % 2 else [], with_pos=True, name_elided=(i % 3 == 2))
             seen = set()
@@ -68,7 +68,7 @@ def family(pid, tier, seed):
         gs += curated_c11(rng)
         gs += [g for g in curated_core(rng) if g["id"] == "t3"]
     elif pid == "C13":
-        n, exh, rnd = (24, 3, 60) if quick else (300, 4, 250)
+        n, exh, rnd = (24, 3, 60) if quick else (100, 3, 200)
         for i in range(n):
             g = GG.make_grammar(rng, "g%d" % i, extra_kinds=["int8"] if i % 3 == 0 else [], neglook=False, ks=(0, 1, 2, 3, 4, 99999, -1, -2))
             seen = set()
